@@ -22,7 +22,8 @@ import CpModel.Hooks
   * `handle_error`: `before_error_response`, `error_response()`, `after_error_response`, `finalize()`,
     `except HTTPRedirect: set_response(); finalize()`; everything else propagates to `run`, whose
     `except Exception` produces `bare_error` (traceback iff the request's `show_tracebacks`).
-  * `Response.finalize`: status validation (`valid_status`: 100..599, else `HTTPError(500)`), body
+  * `Response.finalize`: status validation (`valid_status`: the generated table
+    `Gen.Pipeline.validStatusRanges`, else `HTTPError(500)`), body
     collapse unless streaming (iterating a generator that raises / a non-iterable raises there),
     no-body statuses.
   * `HTTPError.set_response`: status, traceback iff `show_tracebacks`, the `error_page` callable
@@ -35,7 +36,7 @@ import CpModel.Hooks
   on the response, `request.error_response = None`, `throw_errors = True`.
 -/
 namespace CpModel.Pipeline
-open CpModel.Hooks
+open CpModel.Hooks CpModel.Gen.Pipeline
 
 inductive Point where
   | onStartResource | beforeRequestBody | beforeHandler | beforeFinalize
@@ -157,8 +158,8 @@ def runPoint (p : Point) (s : St) : R :=
   let (ex, e) := Hooks.run (hooksAt pg s p)
   { j := .visit p :: ex.map (fun h => .hook p h.id), st := s, exn := e }
 
-/-- statuses for which `finalize` drops the body -/
-def noBody (code : Nat) : Bool := code < 200 || code == 204 || code == 205 || code == 304
+/-- statuses for which `finalize` drops the body (generated table: 1xx, 204, 205, 304) -/
+def noBody (code : Nat) : Bool := inRanges noBodyRanges code
 
 /-- does iterating the body to the end raise? -/
 def BodyK.iterFails : BodyK → Bool
@@ -175,14 +176,14 @@ def BodyK.collapsed : BodyK → BodyK
     are falsy) -/
 def statusCode (s : St) : Nat :=
   match s.status with
-  | none => 200
-  | some 0 => 200
+  | none => falsyStatusCode
+  | some 0 => falsyStatusCode
   | some c => c
 
 /-- `Response.finalize()` -/
 def finalize (s : St) : R :=
   let code := statusCode s
-  if code < 100 ∨ 599 < code then { st := s, exn := some (.httpError 500) }
+  if !inRanges validStatusRanges code then { st := s, exn := some (.httpError 500) }
   else
     let s1 := { s with status := some code, out := some code }
     if streaming pg s then { st := s1 }
@@ -200,9 +201,8 @@ def setResponseError (c : Nat) (s : St) : R :=
   | .cbFail => { j := [.errorPage], st := { s1 with body := .errorPage tb true } }
   | .tmplFail => { st := s1, exn := some .exc }
 
-/-- redirect codes `HTTPRedirect.set_response` knows -/
-def redirectKnown (c : Nat) : Bool :=
-  c == 300 || c == 301 || c == 302 || c == 303 || c == 304 || c == 305 || c == 307 || c == 308
+/-- redirect codes `HTTPRedirect.set_response` knows (generated table) -/
+def redirectKnown (c : Nat) : Bool := redirectKnownCodes.contains c
 
 /-- `HTTPRedirect(url, c).set_response()` -/
 def setResponseRedirect (c : Nat) (s : St) : R :=
